@@ -359,8 +359,8 @@ def gen_c18(rng: random.Random) -> dict:
 class C18(CheckBase):
     pid = "C18"
     level = "exploration"
-    quick_cases = 3200
-    thorough_cases = 48000
+    quick_cases = 6400
+    thorough_cases = 64000
 
     def cases(self, rng: random.Random, tier: str, idx: int) -> Iterable[dict]:
         yield gen_c18(rng)
